@@ -304,7 +304,8 @@ def classify_kani(name, text):
     m = re.search(r'Verification Time: ([\d.]+)s', text)
     if m:
         r['time_s'] = float(m.group(1))
-    fails = re.findall(r'Failed Checks: (.*)\n\s*File: "([^"]*)", line (\d+), in ([^\n]*)', text)
+    fails = re.findall(r'Failed Checks: (.*?)\n\s*File: "([^"]*)", line (\d+), in ([^\n]*)', text, flags=re.S)
+    fails = [(' '.join(d.split()), f, l, fn) for (d, f, l, fn) in fails]
     for (desc, f, line, fn) in fails:
         r['failures'].append({'desc': desc.strip().strip('"'), 'file': f, 'line': int(line), 'fn': fn.strip()})
     if 'VERIFICATION:- SUCCESSFUL' in text:
